@@ -38,6 +38,9 @@ def gen_cases(tier, seed):
             cases.append({'k': 'pair', 'ta': list(ta), 'tb': list(tb), 'seed': seed})
     for t in c02.types_upto(wmax + 1):
         cases.append({'k': 'unary', 't': list(t), 'seed': seed})
+    # division family on operands wider than a float mantissa (Python-level truncdiv/rem used float division)
+    for ta, tb in [(('s', 64), ('s', 17)), (('u', 60), ('u', 9)), (('s', 58), ('s', 58)), (('u', 64), ('s', 7))]:
+        cases.append({'k': 'pair', 'ta': list(ta), 'tb': list(tb), 'seed': seed, 'only': 'div'})
     if tier == 'thorough':
         wide = [(('u', 8), ('u', 8)), (('s', 8), ('s', 8)), (('u', 33), ('u', 33)), (('s', 33), ('s', 33)),
                 (('u', 64), ('u', 17)), (('s', 64), ('s', 17)), (('u', 13), ('u', 5)), (('s', 5), ('s', 13)),
@@ -160,6 +163,12 @@ def run_case(case):
             exprs += c02.int_exprs(ta)
         if tb[0] == 'u' and ta[0] != 'bit':
             exprs += c02.idxrt_exprs(ta, tb[1])
+        if case.get('only') == 'div':
+            def has_div(e):
+                if isinstance(e, tuple) and e and e[0] == 'bin' and e[1] in ('//', '%', 'tdiv', 'rem'):
+                    return True
+                return isinstance(e, (tuple, list)) and any(has_div(x) for x in e)
+            exprs = [e for e in exprs if has_div(e)]
     else:
         t = tuple(case['t'])
         in_types = {'a': t}
